@@ -332,7 +332,8 @@ func builtinStringSearch(call FunctionCall) Value {
 	if result == nil {
 		return intValue(-1)
 	}
-	return intValue(result[0])
+	// Find the utf16 index in the string, not the byte index.
+	return intValue(utf16Length(target[:result[0]]))
 }
 
 func builtinStringSplit(call FunctionCall) Value {
